@@ -250,3 +250,19 @@ CHECKS["C13"] = {
     "level_note": "Trusted: SQLite 3.40.1 and the declared-catalogue model in c13.rs.",
     "min_nontrivial": 300,
 }
+
+CHECKS["C14"] = {
+    "parts": BASE,
+    "level": "exploration",
+    "technique": "runtime monitor: strict recursive-descent DDL grammar models of MySQL 8.0 and PostgreSQL 15 (vcore/ddlparse.rs, incl. each dialect's type table) parse the rendered schema statement and an independent reference rendering of the same declaration; the element trees must be equal",
+    "rule": "(a) every ColumnType parameterisation of each dialect (39 MySQL, 48 Postgres) x every compatible column-specification sequence of length <= 2 (quick) / 3 (thorough) from {NOT NULL, NULL, DEFAULT int/text/NULL, UNIQUE, PRIMARY KEY, CHECK, COMMENT, auto increment} as CREATE TABLE, every third also as ALTER TABLE modify_column; (b) random statements of every kind: CREATE TABLE with 1-5 columns, table-level indexes / primary keys / foreign keys / checks / MySQL options, ALTER TABLE with 1-3 options (add/modify/rename/drop column, add/drop foreign key), RENAME, DROP TABLE, TRUNCATE, CREATE/DROP INDEX with every option, foreign-key create/drop, Postgres CREATE/ALTER/DROP TYPE and CREATE/DROP EXTENSION; non-trivial = every matched statement; distinct = distinct (rendered text, dialect)",
+    "assumptions": [
+        "the DDL grammar and type tables of DESIGN Appendix G are the trusted base (e.g. MySQL varchar needs a length, Postgres money takes no parameters, column COMMENT / AUTO_INCREMENT are MySQL only, VIRTUAL generated columns do not exist in Postgres)",
+        "expected type mapping (lengths, precision and unsigned-ness preserved; serial types replace the type on Postgres auto increment) is the table in refddl.rs; unspecified string lengths follow the crate's documented defaults (varchar(255))",
+        "types a dialect has no counterpart for (MySQL interval/array/vector/network types, Postgres year) are outside the generated set",
+    ],
+    "design_ref": "DESIGN.md §5 C14, Appendix G",
+    "level_text": "Well-formedness and completeness of schema statements are decided by parsing with a strict model of the dialect's DDL grammar and comparing the parsed elements (columns with one type and each specification once, table-level indexes / keys / checks, options, ALTER action lists with their separators) with those of an independently written rendering of the same declaration.",
+    "level_note": "Trusted: the MySQL/Postgres DDL grammar models and type tables (no such engines in the sandbox).",
+    "min_nontrivial": 500,
+}
